@@ -5,13 +5,14 @@ import ao_corr
 def explore(run, lean):
     ao_corr.explore(run, "C11", 200 if run.tier == "quick" else 4000)
     ao_corr.explore_subclass_capacity(run, "C11", 12 if run.tier == "quick" else 300)
+    ao_corr.explore_track(run, "C11", 25 if run.tier == "quick" else 800)
     run.extra["rule"] = ("scenarios: one control thread issuing 2-7 calls (timed post_fifo/post_lifo with period 1-3 ticks, times 0-3, "
                          "deferred or not; cancel_event / cancel_events with the identical or an equal-but-distinct id / name object; "
                          "stop()), tracked-source capacity 2-6, optional plain poster; real ActiveObject under the deterministic "
                          "scheduler with a virtual clock (PCT / random choosers, clock advanced lazily or at random); recorded "
                          "schedule replayed on the Lean model, compared per step and on the final timers / queue / results")
     run.assumptions.append("virtual time: sleep(p) wakes exactly p ticks later; real-clock drift (execution time per cycle) is not modelled")
-    ROUND6_RULE = "; a subclass whose QUEUE_SIZE is above the base class's, filled to its own capacity (cancel by id / name, stop)"
+    ROUND6_RULE = "; a subclass whose QUEUE_SIZE is above the base class's, filled to its own capacity (cancel by id / name, stop); 2-3 threads arming and cancelling on one object at bytecode level, replayed on the Lean model Conc.Track in lock-acquisition order (family track)"
     run.extra["rule"] += ROUND6_RULE
 
 
